@@ -5,6 +5,7 @@ import harness as H
 import heat_corr as HC
 import heat_oracle as HO
 import hutchens1_corr as H1C
+import rectangle_corr as RCC
 
 # defects of the unchanged tree recorded in KNOWN_FINDINGS.json: which (solver tag, check) pairs of the oracle each explains
 COVERS = {
@@ -65,8 +66,12 @@ UNITS = [
     flow.Unit('hutchens1', groups=['hutchens1'], props=['props/C14_hutchens1.v'], custom_corr=H1C.unit_corr, oracle=oracle,
               note='Hutchens 1: spherical heat equation at every r <> 0, surface value Tb, centre value = limit of nearby values, for every Nsum (theorems on the '
                    'regenerated series, np.where branch included); the initial condition holds only in the limit Nsum -> infinity (oracle)'),
+    flow.Unit('rectangle', groups=['rectangle'], props=['props/C14_rectangle.v'], custom_corr=RCC.unit_corr, oracle=oracle,
+              findings=[dict(finding('rectangle-sides-not-insulated'), refuted='props/C14_rectangle_refuted.v', pending=None)],
+              note='Rectangle: 2-D heat equation everywhere, T = 0 on the bottom and on both sides, for every Nsum (theorems on the regenerated double series); the '
+                   'documented zero-flux side condition is refuted (machine-checked, known finding); top value and initial data hold only in the limit (oracle)'),
     flow.Unit('heat-real-code', groups=[], props=[], oracle=oracle, always_oracle=True,
-              findings=[finding(f) for f in ('rod1d-robin-series', 'rectangle-sides-not-insulated', 'hutchens1-centre-value', 'hutchens2-running-sum')],
+              findings=[finding(f) for f in ('rod1d-robin-series', 'hutchens1-centre-value', 'hutchens2-running-sum')],
               note='finite-difference check of PDE / boundary / initial / steady behaviour on the real code for every heat solver, including those '
                    'outside the theorems (Robin modes from fsolve, Rectangle, Hutchens 1 and 2, cylindrical sandwich)'),
 ]
